@@ -333,11 +333,12 @@ func c18CLI(idx int, rng *rand.Rand) []Case {
 	defer os.Remove(out)
 	args := []string{"attack", "-rate", "60", "-duration", "500ms", "-output", out, "-timeout", "15s",
 		fmt.Sprintf("-keepalive=%v", keepalive), fmt.Sprintf("-http2=%v", h2)}
+	host := []string{"mapped.invalid", "Mapped.Invalid"}[rng.Intn(2)] // spelled the same way in the flag and in the target
 	for _, r := range repl {
-		args = append(args, "-connect-to", "mapped.invalid:80:"+r)
+		args = append(args, "-connect-to", host+":80:"+r)
 	}
 	cmd := exec.Command(os.Getenv("VERIF_VEGETA"), args...)
-	cmd.Stdin = strings.NewReader("GET http://mapped.invalid/\n")
+	cmd.Stdin = strings.NewReader("GET http://" + host + "/\n")
 	runErr := cmd.Run()
 	b, _ := os.ReadFile(out)
 	rs, _ := decodeAll(vegeta.NewDecoder(bytes.NewReader(b)), 1<<20)
